@@ -93,7 +93,8 @@ def cases(tier, seed):
             if comps_:
                 post = [{"name": "decomposeComponents", "pre": False, "include": gen.subset(rng, comps_, 0.6) or comps_[:1]}]
         out.append({"cid": f"c09-{seed}-{k}", "lib": rng.choice(["ufoLib2", "defcon"]), "path": path, "masters": masters,
-                    "sparse": sparse, "kwargs": kwargs, "skip": skip, "post": post})
+                    "sparse": sparse, "kwargs": kwargs, "skip": skip, "post": post,
+                    "sparseUfo": bool(sparse) and not directed and rng.random() < 0.4})
     return out
 
 
@@ -147,12 +148,19 @@ def execute(case):
     for k, gs in enumerate(case["masters"]):
         ufo = {"glyphs": copy.deepcopy(gs), "order": sorted(gs), "glyphNames": sorted(gs),
                "info": {"unitsPerEm": 1000, "ascender": 800, "descender": -200, "familyName": "Compat", "styleName": f"M{k}"}}
-        if k == 0 and case["sparse"]:
+        if k == 0 and case["sparse"] and not case.get("sparseUfo"):
             ufo["layers"] = {"sparse": copy.deepcopy(case["sparse"])}
         if case.get("post"):
             ufo["lib"] = {"com.github.googlei18n.ufo2ft.filters": copy.deepcopy(case["post"])}
         fam_masters.append({"loc": {"Weight": locs[k]}, "ufo": ufo, "name": f"M{k}"})
-    if case["sparse"]:
+    if case["sparse"] and case.get("sparseUfo"):
+        # the sparse master is a UFO of its own that simply lacks the other glyphs (not a layer of a full master)
+        sp = copy.deepcopy(case["sparse"])
+        fam_masters.append({"loc": {"Weight": 2}, "name": "Sparse", "standalone": True,
+                            "ufo": {"glyphs": sp, "order": sorted(sp), "glyphNames": sorted(sp),
+                                    "lib": {"com.github.googlei18n.ufo2ft.filters": copy.deepcopy(case["post"])} if case.get("post") else {},
+                                    "info": {"unitsPerEm": 1000, "ascender": 800, "descender": -200, "familyName": "Compat", "styleName": "Sparse"}}})
+    elif case["sparse"]:
         fam_masters.append({"loc": {"Weight": 2}, "layer": "sparse", "of": 0, "name": "Sparse"})
     family = {"axes": [{"name": "Weight", "tag": "wght", "min": 0, "default": 0, "max": 8}], "masters": fam_masters,
               "lib": {"public.skipExportGlyphs": case["skip"]} if case["skip"] else {}}
@@ -163,13 +171,13 @@ def execute(case):
             fonts.append(s.font)
     src = []
     sparse_flags = []
-    for s in ds.sources:
+    for s, m in zip(ds.sources, fam_masters):
         if s.layerName:
             src.append(absfont.abs_glyphset({g.name: g for g in s.font.layers[s.layerName]}))
             sparse_flags.append(True)
         else:
             src.append(absfont.abs_glyphset({g.name: g for g in s.font}))
-            sparse_flags.append(False)
+            sparse_flags.append(bool(m.get("standalone")))
     rec = {"tid": case["cid"], "path": case["path"], "src": src, "sparse": sparse_flags, "default": 1, "skip": case["skip"],
            "_sig": [case["cid"]]}
     kw = dict(case["kwargs"])
